@@ -6,10 +6,10 @@ package main
 import (
 	"fmt"
 	"go/ast"
-	"os"
-	"regexp"
 	"go/token"
 	"go/types"
+	"os"
+	"regexp"
 	"sort"
 	"strings"
 
